@@ -145,6 +145,24 @@ func genC06(c *Ctx) {
 			oracle = "File on a missing path yields " + itemsStr(items, st) + ", want one error"
 		}
 		c.add(Case{Kind: f.name + "-nofile", Nontrivial: true, Oracle: oracle, Note: f.name + ".File on a path that cannot be opened"})
+		// a missing path whose NEIGHBOURS exist (the same name with .gz / without .gz / plus ".1"):
+		// still exactly one error item, never the records of some other file
+		good := f.wellFormed(c)
+		for len(good) < 20 {
+			good = append(good, f.wellFormed(c)...)
+		}
+		for k, pair := range [][2]string{{"nb-%s.dat.gz", "nb-%s.dat"}, {"nb-%s.dat", "nb-%s.dat.gz"}, {"nb-%s.dat.1", "nb-%s.dat"}, {"nb-%s.dat.gz.gz", "nb-%s.dat.gz"}} {
+			existing := writeTemp(fmt.Sprintf(pair[0], f.name), good, strings.HasSuffix(pair[0], ".gz"))
+			missing := filepath.Join(workDir(), fmt.Sprintf(pair[1], f.name))
+			os.Remove(missing)
+			items, st := f.file(missing, 0, len(good)+16)
+			os.Remove(existing)
+			oracle := ""
+			if itemsStr(items, st) != "E" {
+				oracle = fmt.Sprintf("%s.File(%q), which does not exist (but %q does), yields %s, want one error", f.name, filepath.Base(missing), filepath.Base(existing), trunc(itemsStr(items, st), 80))
+			}
+			c.add(Case{Kind: f.name + "-nofile-neighbour", Nontrivial: true, Oracle: oracle, Note: fmt.Sprintf("%s.File on a missing path next to an existing file (variant %d)", f.name, k)})
+		}
 	}
 	interleaved(c, "")
 	gzipLookalike(c)
